@@ -1,7 +1,7 @@
 // Probes of the UNMODIFIED library for seed C16-4: behaviour that already deviates from
 // "after any sequence of changes ... followed by set_up() the result equals a freshly configured simulation".
 // Prints what it sees, exit code = number of deviations.
-#include "../sim_helpers.h"
+#include "sim_helpers.h"
 #include <cstdio>
 #include <unistd.h>
 #include <sys/wait.h>
